@@ -257,6 +257,13 @@ func verifC02ObsoleteReach() {
 	fl.Release()
 	f.deleteObsoleteFiles()
 	files := w.current.GetAllFiles()
-	verifObserve("obsolete", k, len(files), len(w.removed), files[len(files)-1].GetMinKey())
+	// (the order of the files is a map order natively: observe something that does not depend on it)
+	found := false
+	for _, fm := range files {
+		if fm.GetMinKey() == k && fm.GetMaxKey() == k {
+			found = true
+		}
+	}
+	verifObserve("obsolete", k, len(files), len(w.removed), found)
 	verifAssert(k != 77, "reach")
 }
